@@ -200,6 +200,17 @@ class RestAPI(object):
                     "Message body {} does not contain valid JSON".format(data)
                 )
 
+            """
+            Every action takes a JSON object. Refuse any other body here (an
+            empty body is read as an empty object), otherwise the handlers
+            below fail on params.get() and the request is answered with
+            InternalError.
+            """
+            if not isinstance(params, dict):
+                if data.strip():
+                    return aws_error("SerializationException"), 400
+                params = {}
+
             # ------------------------------------------------------------------
 
             """
